@@ -263,6 +263,9 @@ func c18d(c *Ctx, v *variants.Variant) {
 				if inside && id.Name != param {
 					return // local of the closure
 				}
+				if lhs != ast.Expr(id) && param != "" && installedInParser(fl.Body, param, id.Name, at.Pos()) {
+					return // a store through a captured pointer the closure has just installed in a field of its parser: the same memory as the store spelled through the parser parameter
+				}
 				bad = append(bad, v.Where(at.Pos())+": the option closure in "+fd.Name.Name+" stores to "+nospace(lhs)+", a variable captured from the constructor: applying the same Option value in two concurrent Parse calls is a data race")
 			}
 			ast.Inspect(fl.Body, func(m ast.Node) bool {
@@ -572,4 +575,32 @@ func c18f(c *Ctx, v *variants.Variant) {
 	}
 	sort.Strings(bad)
 	r.Check(len(bad) == 0, "C18-f", "T.parser:no-storage-shared-through-package-variables", v.Name, "builder/static_code.go", fmt.Sprintf("%d stores into parser fields, none takes a reference out of a package-level variable", n), strings.Join(uniq(bad), "; "))
+}
+
+// installedInParser: before pos the body assigns the captured variable name to a field reached through the parser
+// parameter (`p.Stats = stats`, also as one position of a tuple assignment).
+func installedInParser(body ast.Node, param, name string, pos token.Pos) bool {
+	found := false
+	ast.Inspect(body, func(n ast.Node) bool {
+		if _, ok := n.(*ast.FuncLit); ok {
+			return false
+		}
+		as, ok := n.(*ast.AssignStmt)
+		if !ok || as.Pos() >= pos || len(as.Lhs) != len(as.Rhs) {
+			return true
+		}
+		for i, l := range as.Lhs {
+			sel, ok := l.(*ast.SelectorExpr)
+			if !ok {
+				continue
+			}
+			if root, ok := sel.X.(*ast.Ident); ok && root.Name == param {
+				if id, ok := stripParens(as.Rhs[i]).(*ast.Ident); ok && id.Name == name {
+					found = true
+				}
+			}
+		}
+		return true
+	})
+	return found
 }
